@@ -32,7 +32,7 @@ def step (st : St) (toks : List String) : St × Option String :=
     let o : Outcome := ⟨if eq == "eq" then 1 else 2, none⟩
     let f := isFailure [.result 1] o
     let ab := isAbortable [.result 1] o
-    (st, some s!"rp={b2s f} ab={b2s ab} cb={b2s f} fb={b2s f}")
+    (st, some s!"rp={b2s f} ab={b2s ab} cb={b2s f} fb={b2s f} hp={b2s (isCancellable [.result 1] o)}")
   | [op, v, e] =>
     if op != "o" && op != "oh" then (st, some "bad-op") else
     match parseErr e with
